@@ -31,6 +31,8 @@ var g1GeneratorTableOnce sync.Once
 
 func (g *G1) generatorTable() *[32 * 2]curvePointTable {
 	g1GeneratorTableOnce.Do(func() {
+		verifGate("init:bn256.g1Table")
+		defer verifGate("inited:bn256.g1Table")
 		g1GeneratorTable = new([32 * 2]curvePointTable)
 		base := NewCurveGenerator()
 		for i := 0; i < 32*2; i++ {
@@ -78,6 +80,7 @@ func (g *G1) generatorTable() *[32 * 2]curvePointTable {
 			base.Double(base)
 		}
 	})
+	verifGate("done:bn256.g1Table")
 	return g1GeneratorTable
 }
 
